@@ -1,2 +1,4 @@
-From V Require Import Val LtsWire.
+From V Require Import Val LtsWire LtsOracle.
 Definition x_C01_lts (v : val) : val := lts_run v.
+(* v = (case observed): the oracle of Properties/C01.v, theorem C01_model_passes *)
+Definition x_C01_ok (v : val) : val := vbool (ok_C01 (dec_lcase (nthv 0 v)) (dec_obs (nthv 1 v))).
